@@ -152,7 +152,7 @@ def gen(rng: random.Random, k: int, tier: str) -> dict:
             ops.append(op)
         elif kind == "import":
             d = rng.choice(complete) if complete and rng.random() < 0.9 else rng.choice(sorted(disk))
-            ops.append({"op": "import", "dir": d, "how": rng.choice(["lib_abs", "lib_rel", "lib_rel", "cli", "lib_str"]) if rng.random() > cfg["cli_w"] * 0.5 else "cli",
+            ops.append({"op": "import", "dir": d, "scribble": rng.random() < 0.5, "how": rng.choice(["lib_abs", "lib_rel", "lib_rel", "cli", "lib_str"]) if rng.random() > cfg["cli_w"] * 0.5 else "cli",
                         "pt": rng.randrange(1 << 30)})
         elif kind == "chdir":
             cwd = rng.choice(["root", "sub", "sub2"] + [f"d{d}" for d in disk])
@@ -206,6 +206,28 @@ def simplify(op):
 
 def dedupe_key(sig):
     return [sig.get("cls"), sig.get("what"), sig.get("exc")]
+
+
+def _scribble(node):
+    """Edit every container of an imported workspace in place."""
+    if isinstance(node, dict):
+        for k in list(node):
+            v = node[k]
+            if isinstance(v, (dict, list)):
+                _scribble(v)
+            elif isinstance(v, bool) or v is None:
+                continue
+            elif isinstance(v, (int, float)):
+                node[k] = v * 10 + 1
+        node["scribbled"] = True
+    elif isinstance(node, list):
+        for i, v in enumerate(node):
+            if isinstance(v, (dict, list)):
+                _scribble(v)
+            elif isinstance(v, (int, float)) and not isinstance(v, bool):
+                node[i] = v * 10 + 1
+        if node and isinstance(node[0], (int, float)):
+            node.append(-1.0)
 
 
 class World:
@@ -504,7 +526,13 @@ class World:
             ctx.fail("roundtrip", dict(sig, what="import_raises", exc=type(exc).__name__),
                      f"import of completely exported directory d{d} raised {type(exc).__name__}: {str(exc)[:300]} (how={how}, tags={tags}, style={st['pathstyle']})")
             return "raised"
-        return self._compare(self.ws[st["ws"]], parsed, op["pt"], tags, how)
+        res = self._compare(self.ws[st["ws"]], parsed, op["pt"], tags, how)
+        if op.get("scribble"):
+            # what a user may do with the workspace they were handed: edit it in place.  A later import of the same
+            # (unchanged) files must still return what the files contain.
+            _scribble(parsed)
+            ctx.fault("scribble_imported")
+        return res
 
     # -- the round-trip oracle -----------------------------------------------------
     def _compare(self, orig, parsed, pt, tags, how):
